@@ -577,6 +577,89 @@ TARGETS.append(dict(
           "  if !P0f.validTcp pk.ip.isFragment pk.tcp.type then none else some (P0f.fingerprintTcp db (P0f.pktSigOfPkt pk syn_mss) (pk.tcp.type == F_SYN) maxDist)\n",
 ))
 
+# ---------------------------------------------------------------------------------------------- C09 / C10: signature text parsers
+RAISES_FIELD = {"FieldError": "none", "ValueError": "none"}
+TARGETS.append(dict(
+    module="pyp0f.database.signatures.tcp", func="_parse_ttl", file="ParseTtl", lean="parseTtl", import_="P0f.Model.SigParse", open="P0f P0f.Py",
+    pyparams=["field"], params=[("field", "List Char")], ret="Opt:Tuple:Int,Bool", lean_ret="Option (Int × Bool)",
+    env={"field": ("field", "Str")}, raises=RAISES_FIELD, lean_types={"Str": "List Char"}, var_types={"dist": "Int"},
+    alias="def parseTtl (field : List Char) : Option (Int × Bool) := (P0f.parseTtl field).map fun r => ((r.1 : Int), r.2)\n",
+))
+
+TARGETS.append(dict(
+    module="pyp0f.database.signatures.tcp", func="_parse_window", file="ParseWindow", lean="parseWindow", import_="P0f.Model.SigParse", open="P0f P0f.Py",
+    pyparams=["field"], params=[("field", "List Char")], ret="Opt:Tuple:Enum:WinType,Int,Int", lean_ret="Option (WinType × Int × Int)",
+    env={"field": ("field", "Str")}, raises=RAISES_FIELD, lean_types={"Str": "List Char"}, var_types={"size": "Int"},
+    calls={"WindowSignature": tuple_ctor("type", "size", "scale")},
+    alias="def parseWindow (field : List Char) : Option (WinType × Int × Int) := (P0f.parseWindow field).map fun r => (r.1, (if r.1 == WinType.any then (-1 : Int) else (r.2.1 : Int)), optInt r.2.2)\n",
+))
+TARGETS.append(dict(
+    module="pyp0f.database.signatures.tcp", func="_parse_options", file="ParseOptionsField", lean="parseOptionsField", import_="P0f.Model.SigParse", open="P0f P0f.Py",
+    pyparams=["field"], params=[("field", "List Char")], ret="Opt:Tuple:List:Int,Int", lean_ret="Option (List Int × Int)",
+    env={"field": ("field", "Str")}, raises=RAISES_FIELD, lean_types={"Str": "List Char"}, list_types={"options": "List:Int"},
+    var_types={"eol_padding_length": "Int", "option": "Int"},
+    alias="def parseOptionsField_loop0 (field : List Char) (options : List Int) (raw_options : List (List Char)) (l : List (List Char)) (e : Int) : Option (List Int × Int) :=\n"
+          "  (l.foldlM P0f.optionsStep (options.map Int.toNat, e.toNat)).map fun r => (r.1.map (fun (k : Nat) => (k : Int)), (r.2 : Int))\n"
+          "def parseOptionsField (field : List Char) : Option (List Int × Int) := (P0f.parseOptionsField field).map fun r => (r.1.map (fun (k : Nat) => (k : Int)), (r.2 : Int))\n",
+))
+TARGETS.append(dict(
+    module="pyp0f.database.signatures.tcp", func="_parse_quirks", file="ParseQuirksField", lean="parseQuirksField", import_="P0f.Model.SigParse", open="P0f P0f.Py",
+    pyparams=["field", "ip_version"], params=[("field", "List Char"), ("ip_version", "Int")], ret="Opt:QSet", lean_ret="Option QSet",
+    env={"field": ("field", "Str"), "ip_version": ("ip_version", "Int")}, raises=RAISES_FIELD, lean_types={"Str": "List Char"},
+    calls={"Quirk": _quirk0},
+    alias="def parseQuirksField_loop0 (field : List Char) (ip_version : Int) (invalid_quirks : Option QSet) (raw_quirks : List (List Char)) (l : List (List Char)) (q : QSet) : Option QSet :=\n"
+          "  l.foldlM (P0f.quirksStep (intToOpt ip_version)) q\n"
+          "def parseQuirksField (field : List Char) (ip_version : Int) : Option QSet := P0f.parseQuirksField field (intToOpt ip_version)\n",
+))
+
+def opt_call(lean_name, arg_types, ret):
+    """call of another translated function that may raise: bound before the current statement (the exception propagates)"""
+    def mk(fn, args, kw, env):
+        if kw or len(args) != len(arg_types):
+            raise NotTranslatable(f"call shape of {lean_name}")
+        out = []
+        for a, want in zip(args, arg_types):
+            e, t = fn.expr(a, env)
+            if want == "Int":
+                e = as_int(e, t)
+            elif want != t:
+                raise NotTranslatable(f"argument type {t}, expected {want}")
+            out.append(par(e))
+        return fn.raising(f"({lean_name} " + " ".join(out) + ")", ret)
+    return mk
+
+
+def _sig_ctor(fn, args, kw, env):
+    want = ("ip_version", "ip_options_length", "ttl", "is_bad_ttl", "window", "options", "payload_class", "quirks")
+    if args or set(kw) != set(want):
+        raise NotTranslatable("TCPSignature(...) call shape")
+    v = {w: fn.expr(kw[w], env) for w in want}
+    win, twin = v["window"]
+    opt, topt = v["options"]
+    if twin != "Tuple:Enum:WinType,Int,Int" or topt != "Tuple:List:Int,Int,Int":
+        raise NotTranslatable(f"window / options of types {twin}, {topt}")
+    return ("(sigOfFields " + " ".join(par(as_int(*v[w])) if w in ("ip_version", "ip_options_length", "ttl", "payload_class") else par(v[w][0]) for w in
+                                       ("ip_version", "ip_options_length", "ttl", "is_bad_ttl")) + f" {par(win)} {par(opt)} "
+            + par(as_int(*v["payload_class"])) + " " + par(v["quirks"][0]) + ")", "Rec:Sig")
+
+
+TARGETS.append(dict(
+    module="pyp0f.database.signatures.tcp", func="TCPSignature.parse", file="ParseTcpSig", lean="parseTcpSig",
+    import_="P0f.Generated.Logic.ParseTtl\nimport P0f.Generated.Logic.ParseWindow\nimport P0f.Generated.Logic.ParseOptionsField\nimport P0f.Generated.Logic.ParseQuirksField\nimport P0f.Model.SigFields",
+    open="P0f P0f.Py", decorators=("classmethod",),
+    pyparams=["cls", "raw_signature"], params=[("raw_signature", "List Char")], ret="Opt:Rec:Sig", lean_ret="Option Sig",
+    env={"raw_signature": ("raw_signature", "Str")}, raises=RAISES_FIELD, lean_types={"Str": "List Char", "Rec:Sig": "Sig"},
+    calls={"split_parts": lambda fn, a, k, e: ("(splitParts ':' 8 " + par(fn.expr(a[0], e)[0]) + ")", "List:Str")
+           if len(a) == 1 and set(k) == {"parts"} and isinstance(k["parts"], ast.Constant) and k["parts"].value == 8 else (_ for _ in ()).throw(NotTranslatable("split_parts call shape")),
+           "_parse_ttl": opt_call("P0f.Gen.parseTtl", ["Str"], "Tuple:Int,Bool"),
+           "_parse_window": opt_call("P0f.Gen.parseWindow", ["Str"], "Tuple:Enum:WinType,Int,Int"),
+           "_parse_options": opt_call("P0f.Gen.parseOptionsField", ["Str"], "Tuple:List:Int,Int"),
+           "_parse_quirks": opt_call("P0f.Gen.parseQuirksField", ["Str", "Int"], "QSet"),
+           "OptionsSignature": tuple_ctor("layout", "mss", "eol_padding_length"),
+           "cls": _sig_ctor},
+    alias="def parseTcpSig (raw_signature : List Char) : Option Sig := P0f.parseTcpSig raw_signature\n",
+))
+
 for t in TARGETS:
     if "import_" in t:
         t["import"] = t.pop("import_")
